@@ -59,6 +59,9 @@ type Plan struct {
 	SyncCommitteeSize uint64 `json:"sync_committee_size,omitempty"`
 	// Steady: duty tables repeat with the sync committee period, so that equal period phases see equal duties (C20).
 	Steady bool `json:"steady,omitempty"`
+	// CoincideReorg: the head event that carries a reorg affecting the current epoch's attester duties arrives
+	// exactly when that slot's attestation job is due (slot start + attestation delay).
+	CoincideReorg bool `json:"coincide_reorg,omitempty"`
 	// DataStrategy: "" (node 0 directly), "first" or "best": attestation data through the real strategy over all nodes.
 	DataStrategy string `json:"data_strategy,omitempty"`
 }
@@ -330,6 +333,13 @@ func (m *Model) SlotOfRoot(r phase0.Root) (uint64, bool) {
 
 // HeadLatency of slot s.
 func (m *Model) HeadLatency(s uint64) time.Duration {
+	if m.P.CoincideReorg {
+		for _, r := range m.P.Reorgs {
+			if r.Slot == s && r.Kind >= 1 {
+				return m.P.MaxAttestationDelay
+			}
+		}
+	}
 	if len(m.P.HeadLatencyMs) == 0 {
 		return time.Second
 	}
